@@ -376,6 +376,8 @@ struct EncGen {
       bool stub = g.chance(0.5); e.set("stub", stub ? 1 : 0);
       if (stub) { e.set("pat", (int64_t)g.below(5)).setu("stubseed", g.below(100000)).set("sig", g.chance(0.5) ? 2 : 3).set("n", (int64_t)g.range(rate * 2, rate * (thorough ? 40 : 12))); }
       else e.set("sig", (int64_t)(g.chance(0.4) ? 3 : g.below(6))).set("n", (int64_t)g.range(rate * 2, rate * (thorough ? 8 : 4)) / (ch > 2 ? 3 : 1));
+      // a hard maximum so low that a short block's allowance is less than a byte (the control interface accepts 1 kbit/s), on a signal that keeps the encoder on short blocks
+      if (lim != 1 && e.i("how") == 5 && g.chance(0.07)) { static const int64_t lows[] = {500, 1000, 1500, 2000, 3000, 4000}; e.set("max", lows[g.below(6)]).set("min", -1).set("sig", 2); static const int64_t rv[] = {64, 128, 256, 1024, 4096}; e.set("resv", rv[g.below(5)]); }
     } else {
       m.set("mode", "lifecycle"); Rec &e = p.add("enc"); enc_common(e, true);
       if (g.chance(0.2)) { double u = g.unit(); if (u < 0.25) e.set("rate", g.chance(0.5) ? 0 : -44100); else if (u < 0.5) e.set("ch", g.chance(0.5) ? 0 : 256 + (int64_t)g.below(1000)); else if (u < 0.75) e.setf("q", g.chance(0.5) ? -5.0 : 7.5); else e.set("nom", g.chance(0.5) ? 1 : 2000000000); }
